@@ -77,6 +77,7 @@ package server
 // the hold time of a session is the smaller of the configured one and the one in the peer's OPEN; keepalives go
 // out every third of it when that is less than configured
 //@ func negotiateTimers
+//@   tag C08 C07
 //@   requires conf != nil && body != nil
 //@   modifies conf.Timers.State.NegotiatedHoldTime, conf.Timers.State.KeepaliveInterval
 //@   ensures conf.Timers.State.NegotiatedHoldTime == (float64(body.HoldTime) > conf.Timers.Config.HoldTime ? conf.Timers.Config.HoldTime : float64(body.HoldTime))
@@ -271,6 +272,16 @@ package server
 //@   at-call ^peer.updateRoutes(withdrawn...) requires path.IsWithdraw
 //@   at-call ^sendfsmOutgoingMsg(peer, withdrawn) requires called(updateRoutes)
 
+// which families are kept stale / carried into the long-lived phase is a matter of what was NEGOTIATED with the peer
+// (State), not of what is configured locally: a family is on the list exactly when the peer listed it in its
+// capability (and, for GR, the session has it enabled)
+//@ props C12
+//@ func (*peer).llgrFamilies
+//@   claims step
+//@   loop 0 step len(list) == header(len(list)) + (a.LongLivedGracefulRestart.State.Enabled ? 1 : 0)
+//@ func (*peer).forwardingPreservedFamilies
+//@   claims step
+//@   loop 0 step len(list) == header(len(list)) + (a.MpGracefulRestart.State.Enabled && a.MpGracefulRestart.State.Received ? 1 : 0)
 // from C12 "kept ... until the per-family long-lived timer expires": the family whose long-lived timer has just
 // fired counts as expired when the peer's restart state is wound up - it never keeps "all expired" from being true
 //@ props C12
@@ -297,6 +308,9 @@ package server
 //@   at-call peer.fsm.bgpMessageResetStats() requires called(clearedNeighborState)
 //@   at-call ^s.dropAdjRIBIn(peer, peer.configuredRFlist()) requires restartTimerExpired
 //@   at-call peer.llgrFamilies() requires restartTimerExpired
+// "when End-of-RIB has arrived for every GR family ... routes not re-announced are withdrawn": the sweep at that point
+// covers every family of the session, not only those whose marker came in the last UPDATE
+//@   at-call peer.adjRibIn.DropStale( requires called(configuredRFlist)
 
 // "... until the per-family long-lived timer expires": what the expiry removes are the routes still stale; routes the
 // peer has re-announced since (the session may be up again, End-of-RIB not yet in) are fresh and stay. The closure is
